@@ -100,9 +100,9 @@ def bounded(hname, n_quick, n_thorough, extra_def=None, canaries=(), functions=N
 
 UNITS = [
     bounded("insert", 15, 31, canaries=[dict(name="up_wrong_parent", where="body:percolateUp", rx=r"parent = \(parent - 1\) >> 1;", repl="parent = parent >> 1;")]),
-    bounded("remove", 15, 31, canaries=[dict(name="remove_no_siftup", where="body:removePos", rx=r"percolateUp\(pos\);", repl="")]),
+    bounded("remove", 15, 23, timeout=1500, canaries=[dict(name="remove_no_siftup", where="body:removePos", rx=r"percolateUp\(pos\);", repl="")]),
     bounded("pop", 15, 31, canaries=[dict(name="down_no_smaller_child", where="body:percolateDown", rx=r"if \(lt_\(F_data\[vector_\[child - 1\]\], F_data\[vector_\[child\]\]\)\)\s*--child;", repl="", count=1)]),
-    bounded("update", 15, 31, canaries=[dict(name="update_no_down", where="body:update", rx=r"percolateDown\(pos\);", repl="")]),
+    bounded("update", 15, 23, timeout=1500, canaries=[dict(name="update_no_down", where="body:update", rx=r"percolateDown\(pos\);", repl="")]),
     bounded("build", 7, 15, canaries=[dict(name="build_off_by_one", where="body:build", rx=r"vector__size / 2 - 1", repl="(vector__size - 1) / 2 - 1")]),
     bounded("insert_list", 7, 11, canaries=[dict(name="bulk_wrong_position", where="body:insert_list", rx=r"newElement\(list\[i\], pos\)", repl="newElement(list[i], i)")]),
     bounded("buildFrom", 7, 9),
